@@ -200,6 +200,13 @@ type pkgInfo struct {
 	callRefs     map[*ast.FuncDecl]int // references in call position from other function bodies
 	valueRefs    map[*ast.FuncDecl]int // any other reference (function value, unresolvable receiver)
 	reachMemo    map[*ast.FuncDecl]int // 0 unknown, 1 visiting, 2 no, 3 yes
+	looseMemo    map[*ast.FuncDecl]int
+	typeNames    map[string]bool                       // types declared in the package
+	fieldTypes   map[string]string                     // "Type.field" -> package type of the field
+	optTypes     map[string]bool                       // result types of the *Options(..) functions
+	byMethodName map[string][]*ast.FuncDecl
+	valueFrom    map[*ast.FuncDecl]map[*ast.FuncDecl]bool // who references the function as a value
+	pathOf       map[*ast.File]string
 }
 
 var reOptions = regexp.MustCompile(`(?i)options$`)
@@ -284,6 +291,7 @@ type entryPoint struct {
 	File  string   `json:"file"`
 	Func  string   `json:"func"`
 	Line  int      `json:"line"`
+	Via   []string `json:"via,omitempty"` // declarations that use the entry point's function as a value
 	FB    bool     `json:"fb_option"`
 	Flags []string `json:"flags"`
 	IR    *Node    `json:"ir"`
@@ -311,6 +319,7 @@ type fnCtx struct {
 	retTmp     map[int]int   // modeNonTail: id of the anonymous result at position i
 	knownNil   map[int]bool  // error variables (ids) known to be nil here
 	lastStmt   ast.Stmt      // last statement of the function body (a call there is a tail call)
+	localTypes map[string]string // local variable -> type of the package it holds (syntactic: literals, constructors, typed fields)
 }
 
 func (c *fnCtx) src(n ast.Node) string {
@@ -392,11 +401,7 @@ func (c *fnCtx) handlerCall(call *ast.CallExpr) (bool, bool) {
 
 // optionCall: call of a function-typed field of the options value: options.<field>(...)
 func (c *fnCtx) optionCall(call *ast.CallExpr) (string, bool) {
-	r, p, ok := selPath(call.Fun)
-	if ok && c.optVars[r] && p != "" && !strings.Contains(p, ".") && c.pkg.optFuncs[p] {
-		return p, true
-	}
-	return "", false
+	return c.optField(call.Fun)
 }
 
 // nilCheck: `<x> != nil` / `<x> == nil`
@@ -467,7 +472,7 @@ func (c *fnCtx) scan0(n ast.Node, lits bool) facts {
 			if r, p, ok := selPath(y.Fun); ok && c.alias != "" && r == c.alias && p == "TraceError" {
 				f.trace = true
 			}
-			if _, _, ok := c.helperCall(y); ok {
+			if _, _, ok := c.helperCall(y); ok || c.unresolvedHelper(y) {
 				f.helper = true
 			}
 			if ok, _ := c.handlerCall(y); ok {
@@ -490,6 +495,14 @@ func (c *fnCtx) scan0(n ast.Node, lits bool) facts {
 }
 
 func (c *fnCtx) unknown(n ast.Node) *Node { return &Node{Op: "Unknown", Src: c.src(n)} }
+
+// notInlined: a same-package helper that matters here could not be inlined; the term is
+// incomplete at this point (the harness does not evaluate clauses on such a term)
+func (c *fnCtx) notInlined(n ast.Node) *Node {
+	return &Node{Op: "Unknown", Src: notInlinedPrefix + c.src(n)}
+}
+
+const notInlinedPrefix = "not inlined: "
 
 func (c *fnCtx) block(stmts []ast.Stmt) *Node {
 	var out []*Node
@@ -774,7 +787,7 @@ func (c *fnCtx) stmt(s ast.Stmt) *Node {
 			}
 		}
 		if f.helper {
-			return c.unknown(s) // a helper's result used inside an expression
+			return c.notInlined(s) // a helper's result used inside an expression
 		}
 		if !f.relevant() && !f.optCall {
 			return c.rejectOrOther(s)
@@ -812,7 +825,7 @@ func (c *fnCtx) stmt(s ast.Stmt) *Node {
 			return c.inlineCallStmt(s, call, fd, recv)
 		}
 		if f.helper {
-			return c.unknown(s)
+			return c.notInlined(s)
 		}
 		// e.Exit()
 		if sel, ok := call.Fun.(*ast.SelectorExpr); ok {
@@ -882,7 +895,7 @@ func (c *fnCtx) stmt(s ast.Stmt) *Node {
 			}
 		}
 		if f.helper {
-			return c.unknown(s)
+			return c.notInlined(s)
 		}
 		var out []*Node
 		ff := facts{}
@@ -953,7 +966,10 @@ func (c *fnCtx) ifStmt(x *ast.IfStmt, f facts) *Node {
 		return a, b
 	}
 	fc := c.scan(x.Cond)
-	if fc.handler || fc.fallback || fc.entryCall || fc.entryUse || fc.helper {
+	if fc.helper {
+		return c.notInlined(x)
+	}
+	if fc.handler || fc.fallback || fc.entryCall || fc.entryUse {
 		return c.unknown(x)
 	}
 
@@ -1003,7 +1019,7 @@ func (c *fnCtx) ifStmt(x *ast.IfStmt, f facts) *Node {
 			}
 		}
 		// options.<field> != nil
-		if r, p, ok := selPath(sub); ok && c.optVars[r] && c.pkg.optFuncs[p] {
+		if p, ok := c.optField(sub); ok {
 			push := func() { c.guards = append(c.guards, p) }
 			pop := func() { c.guards = c.guards[:len(c.guards)-1] }
 			var a, b *Node
@@ -1072,7 +1088,7 @@ func (c *fnCtx) condOptCalls(cond ast.Expr) *Node {
 	guarded := map[string]bool{}
 	ast.Inspect(cond, func(n ast.Node) bool {
 		if sub, _, ok := nilCheck0(n); ok {
-			if r, p, ok := selPath(sub); ok && c.optVars[r] {
+			if p, ok := c.optField(sub); ok {
 				guarded[p] = true
 			}
 		}
@@ -1367,6 +1383,7 @@ func main() {
 				}
 				// option variables: assigned from a call to *Options(...) anywhere in the enclosing declaration
 				c.findOptVars(stack[1])
+				c.scanLocals(stack[1])
 				if len(body.List) > 0 {
 					c.lastStmt = body.List[len(body.List)-1]
 				}
@@ -1376,6 +1393,24 @@ func main() {
 				}
 				ir = c.root.canon(ir)
 				name := funcName(stack)
+				epFile := rel
+				var via []string
+				if fd, ok := n.(*ast.FuncDecl); ok {
+					// an unexported function used as a value by exactly one constructor
+					// (`return i.intercept`) is that constructor's entry point
+					for d := range p.valueFrom[fd] {
+						via = append(via, funcName([]ast.Node{d}))
+					}
+					sort.Strings(via)
+					if len(p.valueFrom[fd]) == 1 && !fd.Name.IsExported() {
+						for d := range p.valueFrom[fd] {
+							name = funcName([]ast.Node{d})
+							if r2, err := filepath.Rel(root, p.pathOf[p.fileOf[d]]); err == nil {
+								epFile = filepath.ToSlash(r2)
+							}
+						}
+					}
+				}
 				parts := split(ir)
 				for i, part := range parts {
 					perFunc[name]++
@@ -1384,7 +1419,7 @@ func main() {
 						line = c.root.lines[i]
 					}
 					part, flags := renumber(part, c.root.flags)
-					eps = append(eps, &entryPoint{File: rel, Func: name, Line: line,
+					eps = append(eps, &entryPoint{File: epFile, Func: name, Line: line, Via: via,
 						FB: c.root.usesOptions && p.hasFallbackField(), Flags: flags, IR: part})
 				}
 				return true
